@@ -1115,12 +1115,23 @@ def run(ctx: Ctx):
     # corpus first
     for name, payload in corpus_cases():
         replay(ctx, payload, from_corpus=name)
-    cases, lines, impl = history_stream(ctx, ctx.n(150, 1200))
-    compare_lines(ctx, "history", cases, lines, impl)
-    portable_stream(ctx, ctx.n(80, 600))
-    other_models_stream(ctx, ctx.n(40, 600))
-    flags_stream(ctx)
-    memo_stream(ctx, ctx.n(80, 1500))
+    import time as _t
+    walls = {}
+
+    def timed(name, f):
+        t0 = _t.time()
+        r = f()
+        walls[name] = round(walls.get(name, 0.0) + _t.time() - t0, 1)
+        ctx.extra["stream_wall_s"] = dict(walls)
+        return r
+
+    cases, lines, impl = timed("history-impl", lambda: history_stream(ctx, ctx.n(150, 500)))
+    timed("history-model", lambda: compare_lines(ctx, "history", cases, lines, impl))
+    timed("portable", lambda: portable_stream(ctx, ctx.n(80, 300)))
+    timed("other", lambda: other_models_stream(ctx, ctx.n(40, 300)))
+    timed("flags", lambda: flags_stream(ctx))
+    timed("memo", lambda: memo_stream(ctx, ctx.n(80, 600)))
+    ctx.log(f"[C20] wall per stream (s): {walls}")
 
 
 def search(ctx: Ctx, seeds):
